@@ -8,12 +8,12 @@ says whether relations may cross an iframe boundary (both are switched inside th
 from __future__ import annotations
 from pyvc.dsl import abstract
 from pyvc.types import INT, BOOL, STR, TOpt, TSeq
-from pyvc.tree import (ATTRVAL as AttrVal, OPT_ATTRVAL as OptAttrVal, SEQ_RAW as SeqRaw, NODE as Node, SEQ_NODE as SeqNode, CSSMATCH as M, NSMAP as NsMap, SELLIST as SelList, SEL as Sel,
+from pyvc.tree import (SEQ_ATTR as SeqAttr, ATTR_PAIR as AttrPair, PAT as Pat, ATTRVAL as AttrVal, OPT_ATTRVAL as OptAttrVal, SEQ_RAW as SeqRaw, NODE as Node, SEQ_NODE as SeqNode, CSSMATCH as M, NSMAP as NsMap, SELLIST as SelList, SEL as Sel,
                        SELTAG as SelTag, SELATTR as SelAttr, SELNTH as SelNth, SELCONTAINS as SelContains, SELLANG as SelLang,
                        FLAGS as Flags)
 from spec.vocab_tree import (parent, contents, idx, depth, is_tag, is_doc, is_navstr, is_comment, is_cdata, is_pi, is_decl,
                              is_doctype, text, name, prefix, namespace, is_xml_flag, next_sibling, previous_sibling, same,
-                             ascii_lower, ns_get, html_ns_map, fake_parent, rattrs, norm, as_str, is_str_val, ws_tokens, is_list_val, as_list, NS_XHTML, NS_XML)
+                             ascii_lower, ns_get, html_ns_map, fake_parent, rattrs, norm, as_str, is_str_val, ws_tokens, is_list_val, as_list, attr_ns, attr_local, pat_match, join_sp, NS_XHTML, NS_XML)
 from spec.vocab_ir import (sel_is_null, SEL_EMPTY, SEL_ROOT, SEL_DEFAULT, SEL_INDETERMINATE, SEL_SCOPE, SEL_DIR_LTR, SEL_DIR_RTL,
                            SEL_IN_RANGE, SEL_OUT_OF_RANGE, SEL_DEFINED, SEL_PLACEHOLDER_SHOWN, DIR_FLAGS, RANGES)
 
@@ -223,11 +223,6 @@ def sem_nth(m: M, ns: NsMap, ifr: bool, el: Node, nth: SeqSelNth) -> bool:
 @abstract
 def sem_empty(m: M, el: Node) -> bool:
     return _ref.sem_empty(m, el)
-
-
-@abstract
-def sem_attrs(m: M, ns: NsMap, el: Node, attrs: SeqSelAttr) -> bool:
-    return _ref.sem_attrs(m, ns, el, attrs)
 
 
 @abstract
@@ -606,3 +601,94 @@ def all_classes(cur: SeqStr, classes: SeqStr, i: int) -> bool:
 
 def sem_classes(m: M, el: Node, classes: SeqStr) -> bool:
     return all_classes(class_list(el), classes, 0)
+
+
+# ---------------------------------------------------------------------------------------------- attribute selectors (C01.O5, C11.O3, C12.O3)
+
+def npairs_from(seq: SeqRaw, i: int) -> SeqAttr:
+    """(key, normalised value) for the raw attribute pairs from position i on (what iter_attributes yields)."""
+    if i < 0 or i >= len(seq):
+        return []
+    return [(seq[i][0], norm(seq[i][1]))] + npairs_from(seq, i + 1)
+
+
+def npairs(el: Node) -> SeqAttr:
+    if el is None:
+        return []
+    return npairs_from(rattrs(el), 0)
+
+
+def eq_name(m: M, a: str, b: str) -> bool:
+    """Attribute names compare exactly in XML documents, ASCII case-insensitively otherwise (C11)."""
+    return a == b if m.is_xml else ascii_lower(a) == ascii_lower(b)
+
+
+def attr_hit(m: M, w: OptStr, el: Node, k: str, attr: str, prefix: OptStr) -> bool:
+    """Key k of el is the attribute [prefix|attr] asks for; w is the URI the prefix is mapped to (None: no prefix or '*').
+    [*|a]: a in any namespace or none (local name);  [a] / [|a]: the attribute named a without namespace processing;
+    [ns|a]: a in exactly the mapped namespace."""
+    if prefix is not None and prefix == '*':
+        if attr_ns(el, k) is not None and attr_local(el, k) is not None:
+            return eq_name(m, attr, attr_local(el, k))
+        return eq_name(m, attr, k)
+    if w is None:
+        return eq_name(m, attr, k)
+    return (attr_ns(el, k) is not None and attr_ns(el, k) == w and attr_local(el, k) is not None and
+            eq_name(m, attr, attr_local(el, k)))
+
+
+def find_attr(m: M, w: OptStr, el: Node, attr: str, prefix: OptStr, seq: SeqAttr, i: int) -> OptAttrVal:
+    """Value of the first attribute from position i on that [prefix|attr] asks for."""
+    if i < 0 or i >= len(seq):
+        return None
+    if attr_hit(m, w, el, seq[i][0], attr, prefix):
+        return seq[i][1]
+    return find_attr(m, w, el, attr, prefix, seq, i + 1)
+
+
+def find_ci(seq: SeqAttr, attr: str, i: int) -> OptAttrVal:
+    """Documents without namespace support: first attribute whose name equals attr ASCII case-insensitively."""
+    if i < 0 or i >= len(seq):
+        return None
+    if ascii_lower(attr) == ascii_lower(seq[i][0]):
+        return seq[i][1]
+    return find_ci(seq, attr, i + 1)
+
+
+def attr_lookup(m: M, ns: NsMap, el: Node, attr: str, prefix: OptStr) -> OptAttrVal:
+    if not supports_ns(m):
+        return find_ci(npairs(el), attr, 0)
+    if prefix is not None and prefix != '':
+        w = ns_get(ns, prefix)
+        if w is None and prefix != '*':
+            return None                      # an unmapped prefix matches nothing
+        return find_attr(m, w, el, attr, prefix, npairs(el), 0)
+    return find_attr(m, None, el, attr, prefix, npairs(el), 0)
+
+
+def attr_text(v: OptAttrVal) -> str:
+    """The value a pattern is matched against: the string, or the items of a list value joined by single spaces."""
+    if is_list_val(v):
+        return join_sp(as_list(v))
+    return as_str(v)
+
+
+def one_attr(m: M, ns: NsMap, el: Node, a: SelAttr) -> bool:
+    v = attr_lookup(m, ns, el, a.attribute, a.prefix)
+    if v is None:
+        return False
+    if m.is_xml and a.xml_type_pattern is not None:
+        return pat_match(a.xml_type_pattern, attr_text(v))
+    if a.pattern is None:
+        return True
+    return pat_match(a.pattern, attr_text(v))
+
+
+def all_attrs(m: M, ns: NsMap, el: Node, attrs: SeqSelAttr, i: int) -> bool:
+    if i < 0 or i >= len(attrs):
+        return True
+    return one_attr(m, ns, el, attrs[i]) and all_attrs(m, ns, el, attrs, i + 1)
+
+
+def sem_attrs(m: M, ns: NsMap, el: Node, attrs: SeqSelAttr) -> bool:
+    return all_attrs(m, ns, el, attrs, 0)
